@@ -191,9 +191,52 @@ func Ge(a, b Term) Term { return app(SBool, ">=", a, b) }
 func Select(arr, idx Term, elem Sort) Term { return app(elem, "select", arr, idx) }
 func Store(arr, idx, v Term) Term          { return Term{"(store " + arr.S + " " + idx.S + " " + v.S + ")", arr.Sort} }
 
-// Truncated (Go) division and remainder over Int, in terms of SMT's Euclidean div/mod.
-func TDiv(a, b Term) Term { return app(SInt, "tdiv", a, b) }
-func TMod(a, b Term) Term { return app(SInt, "tmod", a, b) }
+// Division. Literal divisors use SMT's native (linear) div/mod; symbolic divisors use the
+// uninterpreted pair edq/edr (Euclidean quotient and remainder) whose defining
+// property is instantiated per occurrence (solve.go), so that the solver sees
+// a = q*b + r, 0 <= r < |b| instead of a non-linear div term.
+func isLitTerm(t Term) bool {
+	s := t.S
+	if strings.HasPrefix(s, "(- ") && strings.HasSuffix(s, ")") {
+		s = s[3 : len(s)-1]
+	}
+	if s == "" {
+		return false
+	}
+	for _, c := range s {
+		if c < '0' || c > '9' {
+			return false
+		}
+	}
+	return true
+}
+
+func EDiv(a, b Term) Term {
+	if isLitTerm(b) {
+		return app(SInt, "div", a, b)
+	}
+	return app(SInt, "edq", a, b)
+}
+func EMod(a, b Term) Term {
+	if isLitTerm(b) {
+		return app(SInt, "mod", a, b)
+	}
+	return app(SInt, "edr", a, b)
+}
+func TDiv(a, b Term) Term {
+	if isLitTerm(b) {
+		return app(SInt, "tdiv", a, b)
+	}
+	q, r := EDiv(a, b), EMod(a, b)
+	return Ite(Or(Ge(a, IntLit(0)), Eq(r, IntLit(0))), q, Ite(Gt(b, IntLit(0)), Add(q, IntLit(1)), Sub(q, IntLit(1))))
+}
+func TMod(a, b Term) Term {
+	if isLitTerm(b) {
+		return app(SInt, "tmod", a, b)
+	}
+	r := EMod(a, b)
+	return Ite(Or(Ge(a, IntLit(0)), Eq(r, IntLit(0))), r, Ite(Gt(b, IntLit(0)), Sub(r, b), Add(r, b)))
+}
 
 // wrap into the range of an integer type with the given bit width / signedness.
 func Wrap(t Term, bits int, signed bool) Term {
@@ -220,6 +263,8 @@ func smtPrelude() string {
 		fmt.Fprintf(&sb, "(define-fun wrap_u%d ((a Int)) Int (ite (and (<= 0 a) (< a %s)) a (mod a %s)))\n", w, m, m)
 		fmt.Fprintf(&sb, "(define-fun wrap_s%d ((a Int)) Int (ite (and (<= (- %s) a) (< a %s)) a (- (mod (+ a %s) %s) %s)))\n", w, h, h, h, m, h)
 	}
+	sb.WriteString("(declare-fun edq (Int Int) Int)\n")
+	sb.WriteString("(declare-fun edr (Int Int) Int)\n")
 	sb.WriteString("(declare-fun pow10 (Int) Int)\n")
 	sb.WriteString("(declare-fun nd10 (Int) Int)\n")
 	sb.WriteString("(declare-fun pow2 (Int) Int)\n")
